@@ -1,5 +1,4 @@
 SPECIFICATION Spec
-CONSTANT ConfigSeq <- Loaded
 INVARIANT TypeOK
 INVARIANT OnceEach
 INVARIANT BoundedReps
